@@ -25,7 +25,7 @@ RULE = ('plan = history of 5-16 steps by 2-3 clients over Create / '
         'killed before its k-th file-changing libc call (k seeded). '
         'Non-trivial: at least one destroy followed by a create with a '
         'restart in between. Distinct = digest of the trace.')
-PROBES = ['identifier_alias', 'disk_error_inside_request', 'destroy_then_create', 'destroy_newest_then_create',
+PROBES = ['identifier_claimed_in_template', 'identifier_alias', 'disk_error_inside_request', 'destroy_then_create', 'destroy_newest_then_create',
           'restart_between_destroy_and_create', 'kill_restart',
           'kill_hit_inside_request', 'created_but_unacknowledged',
           'destroyed_but_unacknowledged', 'op_on_dead_id', 'all_destroyed']
@@ -102,6 +102,13 @@ def generate(rng, tier, index):
             op['attrs'] = [gen.A('Cryptographic Length', 128),
                            gen.A('Cryptographic Algorithm', 3),
                            gen.A('Cryptographic Usage Mask', 12)]
+        if r.random() < 0.12 and (dead or len(ctx.objs) > 1):
+            # the client asks for an identifier of its choosing (a template
+            # attribute named Unique Identifier): a dead one, or one in use
+            pool = dead if dead and r.random() < 0.7 else \
+                (ctx.objs[:-1] or dead)
+            if pool:
+                op['claim'] = '@' + r.choice(pool)['label']
         rq = {'actor': a, 'ver': list(ver), 'items': [op]}
         y = r.random()
         if y < 0.3 and depth[0] == 0:
@@ -365,6 +372,13 @@ def execute(plan):
                         op_['alias_canon'] = W.resolve(op_['uid'])
                         op_['uid'] = spell(op_['alias_canon'], op_['alias'])
                         probes['identifier_alias'] += 1
+                    if op_.get('claim'):
+                        want = W.resolve(op_.pop('claim'))
+                        key = 'private' if op_['op'] == 'CreateKeyPair' \
+                            else 'attrs'
+                        op_[key] = list(op_.get(key) or []) + [
+                            gen.A('Unique Identifier', want)]
+                        probes['identifier_claimed_in_template'] += 1
                 disk = st.get('disk')
                 if disk:
                     sh.arm(disk[0], disk[1], sticky=disk[2])
